@@ -18,7 +18,7 @@ ASSUME Hx!FromBytes(DigestOf(S!DefaultUid, Pub, MsgDigest)) = "f0b43e94ba45accaa
 ASSUME HashIter(<<>>) = S!H!Hash(<<>>) /\ HashIter(<<97, 98, 99>>) = S!H!Hash(<<97, 98, 99>>)
 ASSUME \A n \in {55, 56, 63, 64, 65, 119, 120, 127, 128, 129, 200} : HashIter(Rnd(1, n)) = S!H!Hash(Rnd(1, n))
 (* ZA input is 2 + |uid| + 192 bytes: uid lengths 0, 1, 61, 62, 63 (block seam at 62), 126, 190 *)
-ASSUME \A ul \in {0, 1, 16, 61, 62, 63, 126, 190} : \A ml \in {0, 1, 23, 24, 31, 32, 33, 64, 100} :
+ASSUME \A ul \in {0, 1, 16, 62, 63, 126} : \A ml \in {0, 1, 31, 32, 33, 100} :
          DigestOf(Rnd(2, ul), Pub, Rnd(3, ml)) = S!Digest(Rnd(2, ul), Pub, Rnd(3, ml))
 
 (* Draw: the Annex A nonce behind a zero block and a block >= n gives the Annex A signature after three tries *)
